@@ -234,8 +234,21 @@ func hashOf(digest []byte) int {
 	return 0
 }
 
+// the primitives are functions of their arguments: the same question gets the same answer
+func priorVerdict(key any, hash int, content, sig []byte, pss bool) (bool, bool) {
+	for _, r := range vrfLog {
+		if r.pss == pss && r.hash == hash && rt.Same(r.key, key) && rt.Same(r.content, content) && rt.Same(r.sig, sig) {
+			return r.valid, true
+		}
+	}
+	return false, false
+}
+
 func stubVerifyPSS(pub *rsa.PublicKey, hash crypto.Hash, digest []byte, sig []byte, opts *rsa.PSSOptions) error {
-	v := rt.Bool(rt.Name("rsa.pss.valid"))
+	v, asked := priorVerdict(pub, int(hash), contentOf(digest), sig, true)
+	if !asked {
+		v = rt.Bool(rt.Name("rsa.pss.valid"))
+	}
 	// the hash the primitive is told must be the one the digest was computed with
 	rt.Assert(int(hash) == hashOf(digest), "C01.cose.pss.hash.consistent")
 	vrfLog = append(vrfLog, vrfRec{pub, int(hash), contentOf(digest), sig, v, true})
@@ -247,20 +260,52 @@ func stubVerifyPSS(pub *rsa.PublicKey, hash crypto.Hash, digest []byte, sig []by
 
 var lastECSig []byte
 
+var ecSigDecoded [][]byte
+var ecSigDecodeErr []bool
+
 func stubDecodeECDSASig(curve elliptic.Curve, sig []byte) (r, s *big.Int, err error) {
-	if rt.Choose(rt.Name("ecdsa.sig.decode.err"), 2) == 1 {
+	known := -1
+	for i, x := range ecSigDecoded {
+		if rt.Same(x, sig) {
+			known = i
+		}
+	}
+	if known < 0 {
+		ecSigDecoded = append(ecSigDecoded, sig)
+		ecSigDecodeErr = append(ecSigDecodeErr, rt.Choose(rt.Name("ecdsa.sig.decode.err"), 2) == 1)
+		known = len(ecSigDecoded) - 1
+	}
+	if ecSigDecodeErr[known] {
 		return nil, nil, rt.NewEnvError("ecdsasig")
 	}
 	lastECSig = sig
 	return rt.BigOf(1), rt.BigOf(2), nil
 }
 func stubECDSAVerify(pub *ecdsa.PublicKey, digest []byte, r, s *big.Int) bool {
-	v := rt.Bool(rt.Name("ecdsa.valid"))
+	v, asked := priorVerdict(pub, hashOf(digest), contentOf(digest), lastECSig, false)
+	if !asked {
+		v = rt.Bool(rt.Name("ecdsa.valid"))
+	}
 	vrfLog = append(vrfLog, vrfRec{pub, hashOf(digest), contentOf(digest), lastECSig, v, false})
 	return v
 }
+var ecdhKeys []*ecdsa.PublicKey
+var ecdhErrs []bool
+
+// (*ecdsa.PublicKey).ECDH: whether the point is on the curve - a function of the key
 func stubECDH(k *ecdsa.PublicKey) (*ecdh.PublicKey, error) {
-	if rt.Choose("ecdh.err", 2) == 1 {
+	known := -1
+	for i, x := range ecdhKeys {
+		if x == k {
+			known = i
+		}
+	}
+	if known < 0 {
+		ecdhKeys = append(ecdhKeys, k)
+		ecdhErrs = append(ecdhErrs, rt.Choose(rt.Name("ecdh.err"), 2) == 1)
+		known = len(ecdhKeys) - 1
+	}
+	if ecdhErrs[known] {
 		return nil, rt.NewEnvError("ecdh")
 	}
 	return nil, nil
